@@ -74,6 +74,7 @@ func init() {
 					switch {
 					case s.Idx != nil:
 						fmt.Fprintln(os.Stderr, "== 0 <= idx", pr.Prove(nil, 0, s.Idx, 0, blk))
+						fmt.Fprintln(os.Stderr, "== idx < len", pr.ProveLen(s.Idx, 1, s.Container, 0, blk))
 					case s.Lo != nil:
 						fmt.Fprintln(os.Stderr, "== 0 <= lo", pr.Prove(nil, 0, s.Lo, 0, blk))
 					}
